@@ -152,15 +152,17 @@ example : b64decodeCode ['Q', 'U', '*', 'J', 'D'] = some [0x41, 0x42, 0x43] ∧ 
 
 /-- `datetimeFromString(datetimeToString(d)) == d` for EVERY UTC date-time of the XEP-0082 lexical
 range: any year 1..9999, any valid calendar day (leap years included), any time of day, with
-milliseconds (printed as `.zzz`) and without (msec = 0, no fraction printed). -/
-theorem dt_roundtrip (d : Dt) (hv : ValidDt d) : dtParseCode (dtToStr d) = some d := by
+milliseconds (printed as `.zzz`) and without (msec = 0, no fraction printed) — in a process running
+in ANY time zone (`loc` = its offset from UTC): the printed form carries `Z`, so the reader's zone is
+never consulted. -/
+theorem dt_roundtrip_at (loc : Int) (d : Dt) (hv : ValidDt d) : dtParseCodeAt loc (dtToStr d) = some d := by
   obtain ⟨hy1, hy2, hm1, hm2, hd1, hd2, hh, hmi, hs, hms⟩ := hv
   have hyr : ((d.year.toNat : Nat) : Int) = d.year := Int.toNat_of_nonneg (by omega)
   have hvd : validDate ((d.year.toNat : Nat) : Int) d.month d.day := by
     rw [hyr]; exact ⟨by omega, hm1, hm2, hd1, hd2⟩
   have hciv : CivilDt d ∧ 1 ≤ d.year ∧ d.year ≤ 9999 :=
     ⟨⟨⟨by omega, hm1, hm2, hd1, hd2⟩, hh, hmi, hs, hms⟩, hy1, hy2⟩
-  have key := fun body hb => dtParseCode_own (Y := d.year.toNat) (M := d.month) (D := d.day) (h := d.hour)
+  have key := fun body hb => dtParseCode_own loc (Y := d.year.toNat) (M := d.month) (D := d.day) (h := d.hour)
     (mi := d.minute) (sc := d.second) (ms := d.msec) (body := body) (by omega) (by omega) hvd hh hmi hs hms hb
   unfold dtToStr
   rw [if_pos hciv]
@@ -172,6 +174,54 @@ theorem dt_roundtrip (d : Dt) (hv : ValidDt d) : dtParseCode (dtToStr d) = some 
   · have e := key _ (Or.inr ⟨rfl, hms⟩)
     simp only [ne_eq, h0, not_false_eq_true, if_true, List.append_assoc, List.cons_append] at e ⊢
     rw [e, hyr]
+
+/-- the same for a process running in UTC (the form the schema tier uses) -/
+theorem dt_roundtrip (d : Dt) (hv : ValidDt d) : dtParseCode (dtToStr d) = some d := dt_roundtrip_at 0 d hv
+
+/-! ### values of any time spec (UTC, local time, fixed offset, time zone)
+
+A `Stamp` is a QDateTime as the application built it: wall-clock fields plus what its time spec is
+ahead of UTC.  The instant it denotes is `utcOf x`.  `stampToStr` is `datetimeToString`, whose two
+branches both convert to UTC first (the correspondence compares it with the real function on values
+of every spec, with and without milliseconds). -/
+
+/-- THE PROPERTY OVER INSTANTS: for a date-time value of ANY time spec whose instant lies in the
+XEP-0082 range, `datetimeFromString(datetimeToString(x))` is the SAME INSTANT as `x` (its UTC fields),
+with and without milliseconds, whatever zone the reading process runs in. -/
+theorem dt_roundtrip_any_spec (loc : Int) (x : Stamp) (hv : ValidDt (utcOf x)) :
+    dtParseCodeAt loc (stampToStr x) = some (utcOf x) := dt_roundtrip_at loc (utcOf x) hv
+
+/-- The XML depends on the instant only, not on the time spec the value happened to be built with. -/
+theorem dt_print_depends_on_instant_only (x y : Stamp) (h : utcOf x = utcOf y) : stampToStr x = stampToStr y := by
+  unfold stampToStr; rw [h]
+
+/-- serialize → parse → serialize is the identity on the text, for every time spec. -/
+theorem dt_reserialize_identity (loc : Int) (x : Stamp) (hv : ValidDt (utcOf x)) :
+    (dtParseCodeAt loc (stampToStr x)).map (fun d => stampToStr ⟨d, 0⟩) = some (stampToStr x) := by
+  rw [dt_roundtrip_any_spec loc x hv]
+  have hc : CivilDt (utcOf x) := by
+    obtain ⟨hy1, _, hm1, hm2, hd1, hd2, hh, hmi, hs, hms⟩ := hv
+    exact ⟨⟨by omega, hm1, hm2, hd1, hd2⟩, hh, hmi, hs, hms⟩
+  simp only [Option.map_some, stampToStr, utcOf_utc hc]
+
+/-- Whatever is printed carries the UTC designator: the text is empty (instant outside the four-digit
+range) or ends in `Z` — never a bare wall-clock time, never a numeric offset. -/
+theorem dt_print_ends_in_Z (x : Stamp) : stampToStr x = [] ∨ (stampToStr x).getLast? = some 'Z' := by
+  unfold stampToStr dtToStr
+  split
+  · right; exact List.getLast?_concat
+  · left; rfl
+
+/-- a UTC value is its own instant -/
+theorem dt_utc_stamp_is_itself (w : Dt) (hc : CivilDt w) : utcOf ⟨w, 0⟩ = w := utcOf_utc hc
+
+/-- non-vacuity / what the conversion does: 03:04:05.123 at +05:30, at −09:30 across midnight and a
+year boundary, and a value with an odd-second offset -/
+example : stampToStr ⟨⟨2020, 1, 2, 3, 4, 5, 123⟩, 19800⟩ = "2020-01-01T21:34:05.123Z".toList := by decide
+example : stampToStr ⟨⟨2020, 12, 31, 20, 0, 0, 7⟩, -34200⟩ = "2021-01-01T05:30:00.007Z".toList := by decide
+example : stampToStr ⟨⟨2024, 3, 1, 0, 0, 0, 0⟩, 3601⟩ = "2024-02-29T22:59:59Z".toList := by decide
+example : ValidDt (utcOf ⟨⟨2020, 1, 2, 3, 4, 5, 123⟩, 19800⟩) := by decide
+example : utcOf ⟨⟨2020, 1, 2, 3, 4, 5, 123⟩, 19800⟩ = utcOf ⟨⟨2020, 1, 1, 16, 34, 5, 123⟩, -18000⟩ := by decide
 
 /-- … and the printed form is also inside the strict XEP-0082 profile (`CCYY-MM-DDThh:mm:ss[.sss]Z`)
 and means the same value there. -/
@@ -231,8 +281,9 @@ theorem dt_print_in_strict_profile (d : Dt) (hv : ValidDt d) : dtParseSpec (dtTo
 /-- The parse side over the whole strict XEP-0082 UTC profile: EVERY string of the form
 `CCYY-MM-DDThh:mm:ss[.sss]Z` that denotes a valid date-time (so also `.000`, which the library never
 prints) is read by today's `datetimeFromString` as exactly that date-time. -/
-theorem dt_accepts_strict_profile (s : Str) (d : Dt) (h : dtParseSpec s = some d) : dtParseCode s = some d :=
-  dtParseCode_of_spec h
+theorem dt_accepts_strict_profile (loc : Int) (s : Str) (d : Dt) (h : dtParseSpec s = some d) :
+    dtParseCodeAt loc s = some d :=
+  dtParseCode_of_spec loc h
 
 example : dtParseSpec "2024-02-29T23:59:59.000Z".toList = some ⟨2024, 2, 29, 23, 59, 59, 0⟩ ∧
     dtParseSpec "2023-02-29T23:59:59Z".toList = none := by decide
@@ -241,13 +292,13 @@ example : dtParseSpec "2024-02-29T23:59:59.000Z".toList = some ⟨2024, 2, 29, 2
 not positive) is printed by `datetimeToString` as the EMPTY string, which does not parse — such
 values are outside what XEP-0082 (`CCYY`) can express, so they are not covered by `dt_roundtrip`. -/
 theorem dt_outside_lexical_range_prints_empty (d : Dt) (hy : d.year < 1 ∨ 9999 < d.year) :
-    dtToStr d = [] ∧ dtParseCode (dtToStr d) = none := by
+    dtToStr d = [] ∧ ∀ loc, dtParseCodeAt loc (dtToStr d) = none := by
   have h : dtToStr d = [] := by
     unfold dtToStr
     rw [if_neg]
     intro hc; omega
   rw [h]
-  exact ⟨rfl, by decide⟩
+  exact ⟨rfl, fun loc => dtParseCodeAt_nil loc⟩
 
 /-- non-vacuity: values with and without milliseconds, a leap day, the ends of the range -/
 example : ValidDt ⟨2024, 2, 29, 23, 59, 59, 999⟩ ∧ ValidDt ⟨1, 1, 1, 0, 0, 0, 0⟩ ∧ ValidDt ⟨9999, 12, 31, 23, 59, 59, 1⟩ ∧
